@@ -107,6 +107,24 @@ prop("C20",
      note="DNs equal to '.' or '..' are excluded (the URL standard's dot-segment removal, not the library, would drop them); '/' in a DN is always percent-encoded by the formatter for the same reason; upper-case scope words are counted, not judged")
 
 
+NETWORLD = "connection-level lanes run the real Ldap/LdapConnAsync over the harness' in-memory transport (hook H1) on a current-thread tokio runtime with a paused clock and a seeded select! RNG; the scripted server decodes requests with the harness' own codec"
+
+prop("C03",
+     title="Results returned to the caller are exactly what the server sent",
+     rule="per case one in-memory connection and 1-6 operations of every kind (bind, SASL bind, add, compare, delete, modify, modifyDN, extended, search()); the scripted server answers each with a generated response model (result codes incl. boundary and random 31-bit values, random UTF-8 matched DN / diagnostic text carrying a unique token, 0..4 referral URIs, BindResponse SASL creds, ExtendedResponse name/value absent/empty/large, 0..4 response controls over the 7 library-known OIDs and random OIDs with criticality absent/FALSE/TRUE(0xFF)/TRUE(other non-zero) and value absent/empty/large) in which every TLV is encoded with an independently chosen legal definite length form, delivered whole, randomly chunked or byte-by-byte; the value returned by the API is compared field by field with the model. helpers lane: success/non_error/equal for every rc 0..=130 plus random 31-bit codes against the documented table. distinct = distinct response-model sequences",
+     claim="held on every generated response of this run (all eight response types reached; counts per operation in the evidence)",
+     design="3/C03", technique="scripted-server differential monitor: returned structs vs the response model the server encoded, over random legal BER length forms and chunkings",
+     note=NETWORLD)
+
+
+prop("C02",
+     title="Each request on the wire is exactly the RFC 4511 PDU the caller asked for",
+     rule="requests lane: per case one in-memory connection and 1-9 calls over all eleven operations (simple bind, SASL EXTERNAL, search with generated filter ASTs/attribute lists/every scope, deref, typesOnly and limit values, add, compare, delete, modify with every Mod variant, modifyDN with/without newSuperior, extended with/without value, abandon of arbitrary positive IDs, unbind) with arbitrary UTF-8 DNs, binary values, empty and 300-1000-element lists, values up to 100 KB and 0-5 request controls (known and random OIDs, criticality, value present/absent); the bytes the scripted server reads are decoded by the harness' strict RFC 4511 decoder (one definite-length LDAPMessage, shortest-form INTEGERs, BOOLEAN 00/FF, DEFAULT criticality not encoded, nothing trailing) and compared field by field with a request model built from the arguments (SET OF as multisets), the message ID with last_id() and the ID table. modifiers lane: random histories of with_controls / with_timeout / with_search_options followed by normal operations or locally failing ones (add/modify with an empty value set, invalid filter, paging-control clash) with scripted reply delays; every operation must show exactly its own modifiers, time out iff its own timeout is shorter than the reply delay, and locally failed operations must not reach the wire. distinct = distinct wire transcripts / distinct step sequences",
+     claim="held on every generated call sequence of this run (per-operation counts in the evidence); all request types reached",
+     design="3/C02", technique="wire-boundary monitor: independent strict RFC 4511 request decoder vs request model built from call arguments; modifier-history oracle on a paused clock",
+     note=NETWORLD)
+
+
 # ---- properties not (yet) claimed ----
 def _na():
     out = []
